@@ -3,7 +3,7 @@
    coq_gen/C02/TableProps.v (compiled on every run after the translator, in build/C02).
    F and the f* operators are an arbitrary interpretation of float / complex arithmetic and of the bit layout of floats. *)
 From Coq Require Import ZArith List Bool.
-From Verif Require Import Common.GoInt Common.GoStr GoLite.Syntax GoLite.Sem C01.Model C02.Model C02.ProofA C02.ProofB C02.ProofC.
+From Verif Require Import Common.GoInt Common.GoStr GoLite.Syntax GoLite.Sem C01.Model C02.Model C02.ProofA C02.ProofB C02.ProofC C02.PlacesModel C02.PlacesProof.
 Import ListNotations.
 Open Scope Z_scope.
 
@@ -162,6 +162,35 @@ Theorem C02_naive_assign_refuted :
     naive_assign nat st [Some 0%nat; Some 1%nat] [fun s => s 1%nat; fun s => s 0%nat] 1%nat <> st 0%nat.
 Proof. exact naive_assign_does_not_swap. Qed.
 Print Assumptions C02_naive_assign_refuted.
+
+(* the two-phase rule INCLUDING the operands of the places on the left (index, map key, pointer, the container):
+   they are read in the store as it is before the statement, so in `k, m[k] = v1, v2` / `m[k], k = ..` /
+   `i, s[i] = ..` / `p, *p = ..` the element designated by the OLD value of the operand is stored (assignMulti copies
+   objs[i] and keys[i] before any store) *)
+Theorem C02_multi_assign_place_operands_old :
+  forall V (st : store V) pes es i pe p e,
+    length es = length pes -> nth_error pes i = Some pe -> pe st = Some p -> nth_error es i = Some e ->
+    ~ In (Some p) (skipn (S i) (eval_places V st pes)) -> multi_assign_places V st pes es p = e st.
+Proof. exact multi_assign_places_old. Qed.
+Print Assumptions C02_multi_assign_place_operands_old.
+
+Theorem C02_multi_assign_places_frame :
+  forall V (st : store V) pes es q,
+    ~ In (Some q) (eval_places V st pes) -> multi_assign_places V st pes es q = st q.
+Proof. exact multi_assign_places_frame. Qed.
+Print Assumptions C02_multi_assign_places_frame.
+
+(* keeping a reference to the operand variable instead of its value is NOT Go's rule: `k, m[k] = 1, 2` with k = 0
+   (slot 0 = k, slot 10+j = m[j]) stores into m[0]; the aliasing variant stores into m[1] *)
+Theorem C02_aliased_place_operand_refuted :
+  let st : store nat := fun _ => 0%nat in
+  let pes : list (pexpr nat) := [fun _ => Some 0%nat; fun s => Some (10 + s 0%nat)%nat] in
+  let es : list (store nat -> nat) := [fun _ => 1%nat; fun _ => 2%nat] in
+  multi_assign_places nat st pes es 0%nat = 1%nat /\ multi_assign_places nat st pes es 10%nat = 2%nat /\
+  multi_assign_places nat st pes es 11%nat = 0%nat /\
+  alias_assign nat st pes es 10%nat = 0%nat /\ alias_assign nat st pes es 11%nat = 2%nat.
+Proof. exact alias_assign_differs. Qed.
+Print Assumptions C02_aliased_place_operand_refuted.
 
 (* non-vacuity *)
 Example C02_example_hop_loop :
